@@ -399,6 +399,10 @@ func c06(c *Ctx) {
 	// the running sum is touched only by the frame parser and by NextReader's per-message reset
 	r.Rule("C06.control-frames-readable", "a message within the limit can be read in full whatever control frames of legal size are interleaved: the read buffer always holds a whole control payload (same rule as C08.read-buffer)")
 	c08readBufferAs(c, rd, "C06.control-frames-readable")
+	r.Rule("C06.limit-on-wire-bytes", "the limit is applied to payload bytes on the wire by the frame parser alone: ErrReadLimit is produced only by advanceFrame / setReadRemaining, the inflating reader passes the inflater's results through unchanged and NextReader installs exactly the negotiated decompressor (same rules as C03.eom for the wrapper, C03.inflate-iff-rsv1)")
+	flateWrapperRule(c, "C06.limit-on-wire-bytes")
+	rd.inflateWrap("C06.limit-on-wire-bytes")
+	limitErrorOwners(c, rd, "C06.limit-on-wire-bytes")
 	r.Rule("C06.error-reaches-reader", "ErrReadLimit reaches whoever reads the message: every Read method layered over the message reader passes inner errors other than io.EOF on (same rule as C05.reader-wrappers)")
 	if c.readerWrappers("C06.error-reaches-reader") < 4 {
 		r.Fail("C06.error-reaches-reader", "package", "floor", c.fn("(*joinReader).Read").Pos(), "fewer than the 4 known reader wrappers were analysed")
@@ -450,4 +454,40 @@ func dependsOnLength(v ssa.Value, rd *reader, seen map[ssa.Value]bool) bool {
 
 func fieldOf(fa *ssa.FieldAddr) *types.Var {
 	return fa.X.Type().Underlying().(*types.Pointer).Elem().Underlying().(*types.Struct).Field(fa.Field)
+}
+
+// limitErrorOwners: ErrReadLimit is referred to only by the frame parser (and
+// helpers extracted from it): a second place that decides "over the limit"
+// (the message reader, a counting wrapper around the inflater) disagrees with
+// the parser at the boundary or counts other bytes.
+func limitErrorOwners(c *Ctx, rd *reader, rule string) {
+	g := c.P.Global("ErrReadLimit")
+	allowed := map[*ssa.Function]bool{rd.advance: true, rd.setRem: true}
+	users := map[string]bool{}
+	ok := true
+	for _, fn := range c.P.FuncList {
+		if fn.Synthetic != "" {
+			continue
+		}
+		uses := false
+		for _, b := range fn.Blocks {
+			for _, in := range b.Instrs {
+				for _, op := range in.Operands(nil) {
+					if *op == ssa.Value(g) {
+						uses = true
+					}
+				}
+			}
+		}
+		if !uses {
+			continue
+		}
+		for _, h := range c.hostsOf(fn) {
+			users[shortFn(h)] = true
+			if !allowed[h] {
+				ok = false
+			}
+		}
+	}
+	c.R.Check(rule, "ErrReadLimit", "produced-by-the-frame-parser-only", rd.advance.Pos(), ok && len(users) > 0, "ErrReadLimit is referred to by {"+joinNames(users)+"}; allowed {(*Conn).advanceFrame, (*Conn).setReadRemaining}")
 }
